@@ -268,10 +268,44 @@ API_TYPES = [
 API_TRAITS = [("libxcp", "StatusUpdater", "libxcp::feedback::StatusUpdater"), ("libxcp", "CopyDriver", "libxcp::drivers::CopyDriver")]
 
 
+LIBFS_COMMON_FNS = ("allocate_file", "copy_file", "copy_owner", "copy_permissions", "copy_timestamps", "is_same_file",
+                    "merge_extents", "sync", "copy_xattr", "read_bytes", "write_bytes", "copy_range_uspace", "copy_bytes_uspace")
+LIBFS_BACKEND_FNS = ("copy_file_bytes", "copy_file_offset", "copy_node", "copy_sparse", "probably_sparse", "next_sparse_segments",
+                     "map_extents", "reflink", "try_copy_file_range", "lseek", "fiemap")
+
+
+def _fn_aliases(j):
+    """libfs functions the rules name by path: one that keeps its name but moves to another module of the crate
+    (`common.rs` split into `metadata.rs`, `linux.rs` into `linux/extents.rs`) is the same function."""
+    if j.get("crate") != "libfs":
+        return []
+    free = [f["path"] for f in j.get("fns", []) if f.get("kind") in ("Fn", None) and "<" not in f["path"] and "{" not in f["path"]]
+    out = []
+    for name in LIBFS_COMMON_FNS + LIBFS_BACKEND_FNS:
+        cands = [p_ for p_ in free if p_.split("::")[-1] == name and p_.startswith("libfs::")]
+        for backend in ("linux", "fallback"):
+            if name in LIBFS_COMMON_FNS:
+                mine = [p_ for p_ in cands if "::linux" not in p_ and "::fallback" not in p_]
+                canon = "libfs::common::" + name
+            else:
+                mine = [p_ for p_ in cands if p_.startswith("libfs::%s::" % backend) or p_ == "libfs::%s::%s" % (backend, name)]
+                canon = "libfs::%s::%s" % (backend, name)
+                if not mine and backend == "linux" and "::fallback" not in "".join(cands) and \
+                        any(f_.startswith("libfs::linux::") for f_ in free):
+                    mine = [p_ for p_ in cands if "::fallback" not in p_]
+            if canon in free or len(mine) != 1:
+                continue
+            out.append((mine[0], canon))
+            if name in LIBFS_COMMON_FNS:
+                break
+    return out
+
+
 def _api_aliases(crate_jsons):
     out = []
     for j in crate_jsons:
         cr = j.get("crate")
+        out += _fn_aliases(j)
         paths = [a["path"] for a in j.get("adts", [])]
         for c_, name, canon in API_TYPES:
             if c_ != cr or canon in paths:
